@@ -1902,6 +1902,19 @@ func (r *Raft) installSnapshot(rpc RPC, req *InstallSnapshotRequest) {
 		r.setLeader(r.trans.DecodePeer(req.Leader), ServerID(req.ID))
 	}
 
+	// A snapshot that ends at or before what we already know to be committed
+	// (a delayed or duplicated request) has nothing to offer. Installing it
+	// would move the FSM, the applied index and the configuration backwards
+	// while the log keeps newer configuration entries. Everything up to our
+	// commit index matches the leader's log, so report success.
+	if lastSnapIdx, _ := r.getLastSnapshot(); req.LastLogIndex > 0 && req.LastLogIndex <= max(r.getCommitIndex(), lastSnapIdx) {
+		r.logger.Info("ignoring installSnapshot request that is not ahead of our committed state",
+			"request-index", req.LastLogIndex, "commit-index", r.getCommitIndex(), "last-snapshot-index", lastSnapIdx)
+		resp.Success = true
+		r.setLastContact()
+		return
+	}
+
 	// Create a new snapshot
 	var reqConfiguration Configuration
 	var reqConfigurationIndex uint64
